@@ -99,11 +99,6 @@ Theorem c10_recreate_refuted :
   spec_out w_recreate 3 = ONum 0 /\ impl_out w_recreate 3 = ONum 6.
 Proof. exact recreate_refuted_lemma. Qed.
 
-Theorem c10_open_opts_refuted :
-  in_class KOpenOptsInvalid w_open_opts = true /\
-  spec_out w_open_opts 0 = OErr EINVAL /\ impl_out w_open_opts 0 = OOk.
-Proof. exact open_opts_refuted_lemma. Qed.
-
 Theorem c10_root_op_refuted :
   in_class KRootOp w_root_op = true /\
   spec_out w_root_op 0 = OErr EINVAL /\ impl_out w_root_op 0 = OOk /\
@@ -121,5 +116,4 @@ Print Assumptions c10_rename_self_refuted.
 Print Assumptions c10_rename_dir_refuted.
 Print Assumptions c10_stale_handle_refuted.
 Print Assumptions c10_recreate_refuted.
-Print Assumptions c10_open_opts_refuted.
 Print Assumptions c10_root_op_refuted.
